@@ -11,12 +11,12 @@ from spec import repcodes as S
 from spec import repcodes_ref as REF
 
 CLAIM = dict(
-    engine='py2smt+pyx2py+ll2smt',
+    engine='py2smt+pyx2py+ll2smt+crosshair',
     technique='SMT (z3 QF_FPBV) equivalence of the decoders/encoders, translated from the current Python/Cython/LLVM-IR source, with the standards\' value formulas over all bit patterns',
     text='Bounded symbolic checking: for every fixed-length LIS-79/RP66V1 code the decoder source is translated to a z3 term and proved equal to the '
          'standard\'s formula on every bit pattern of the code\'s width (2^8..2^64 patterns per query), bytes consumed and *_len helpers included; '
          'code 68 Python = Cython = C++ bit-for-bit on every word / every finite double; to68 inverse and loss bound on every in-range double. '
-         'Not a proof: ldexp/frexp/struct are modelled and variable-length codes are bounded (<= 5 bytes).',
+         'Variable-length codes (IDENT, UNITS, ASCII, OBNAME, OBJREF, DTIME and the *_len helpers) are executed by CrossHair on every byte string of <= 5..9 bytes: value, bytes consumed, short input raises. Not a proof: ldexp/frexp/struct are modelled and variable-length codes are bounded.',
     note='Trusted: z3, the py2smt/pyx2py/ll2smt translators (validated against the real functions and against builds of the current .pyx/.cpp on every run), '
          'models of ldexp/frexp/struct.unpack, spec/repcodes.py. Outside: dipmeter codes, text code 65, unsupported RP66V1 codes, code 50 exponents beyond +-1000.',
 )
@@ -610,4 +610,12 @@ def obligations(tier):
     obs += [ob_lis_sizes(), ob_to68_roundtrip(), ob_to68_loss()]
     obs += [ob_rp_fixed(c) for c in sorted(RP_FIXED)]
     obs += [ob_rp_uvari()]
+    q = tier == 'quick'
+    var = ['RP66V1.core.pRepCode.IDENT/UNITS/ASCII/OBNAME/OBJREF/DTIME/_pascal_string/UVARI/USHORT/UNORM', 'pRepCode.IDENT_len/OBNAME_len/ORIGIN_len', 'pFile.LogicalData.read/chunk/remain']
+    obs += [
+        Ob('rp66_IDENT_UNITS_symbolic_bytes', 'ch', 'every byte string of length <= 5', var, harness='C07_rp66var', func='ident_units', timeout=150 if q else 900),
+        Ob('rp66_ASCII_symbolic_bytes', 'ch', 'every byte string of length <= 6', var, harness='C07_rp66var', func='ascii_code', timeout=150 if q else 900),
+        Ob('rp66_OBNAME_OBJREF_symbolic_bytes', 'ch', 'every byte string of length <= 7', var, harness='C07_rp66var', func='obname_objref', timeout=200 if q else 1500),
+        Ob('rp66_DTIME_symbolic_bytes', 'ch', 'every byte string of length <= 9', var, harness='C07_rp66var', func='dtime', timeout=150 if q else 900),
+    ]
     return obs
